@@ -4,10 +4,13 @@ import json, os, re, subprocess, sys, time, shutil, hashlib
 
 ROOT = os.path.dirname(os.path.dirname(os.path.abspath(__file__)))
 SPECS = os.path.join(ROOT, "specs")
-HARNESS = os.path.join(ROOT, "harness")
-WORKROOT = os.path.join(ROOT, "work")
-REPLAYS = os.path.join(ROOT, "replays")
-EVID = os.path.join(ROOT, "evidence")
+# The defaults are what MANIFEST commands use. bin/mutcheck overrides them to run a check against a
+# scratch copy of /repo (with a mutant applied) without touching /repo, /verif/evidence or /verif/work.
+HARNESS = os.environ.get("VERIF_HARNESS_DIR", os.path.join(ROOT, "harness"))
+WORKROOT = os.environ.get("VERIF_WORK_DIR", os.path.join(ROOT, "work"))
+REPLAYS = os.environ.get("VERIF_REPLAYS_DIR", os.path.join(ROOT, "replays"))
+EVID = os.environ.get("VERIF_EVID_DIR", os.path.join(ROOT, "evidence"))
+REPO = os.environ.get("VERIF_REPO_DIR", "/repo")
 TLA_CP = "/opt/veriftools/tla/tla2tools.jar:/opt/veriftools/tla/CommunityModules-deps.jar"
 
 
@@ -155,7 +158,7 @@ def last_state_var(out, var):
 # ----------------------------------------------------------------------------- harness
 
 def cargo_build(bin_name, timeout=1200):
-    lock_src = "/repo/Cargo.lock"
+    lock_src = os.path.join(REPO, "Cargo.lock")
     lock_dst = os.path.join(HARNESS, "Cargo.lock")
     if not os.path.exists(lock_dst):
         shutil.copy(lock_src, lock_dst)
